@@ -370,6 +370,7 @@ func (p *Parser) parseAmount() *ast.Amount {
 	}
 	amount.Quantity = qty
 	amount.RawQuantity = rawNumberStr
+	end := p.current.End // end of the last token that belongs to the amount
 	p.advance()
 
 	if amount.Commodity.Symbol == "" {
@@ -384,11 +385,12 @@ func (p *Parser) parseAmount() *ast.Amount {
 					End:   toASTPosition(p.current.End),
 				},
 			}
+			end = p.current.End
 			p.advance()
 		}
 	}
 
-	amount.Range.End = toASTPosition(p.current.Pos)
+	amount.Range.End = toASTPosition(end)
 	return amount
 }
 
